@@ -151,6 +151,9 @@ func TestVerif_C03(t *testing.T) {
 		r.BeginCase(id)
 		rng := r.CaseRNG(i)
 		cfg := e3C03Config(rng, r.Quick(), i)
+		if strings.HasSuffix(r.Sub, "race") {
+			cfg.MaxSteps = 1000 * cfg.N // the race detector costs 5-10x
+		}
 		run := e3Execute(r, id, cfg, rng)
 		r.Eval(1)
 		nt, digest, sample := run.summary()
